@@ -137,7 +137,7 @@ def cmd_check(pid: str, tier: str) -> int:
             scn = r.scn
             case = scn.make_case(seed, idx, tier)
             got = runner.violation_classes(scn, case)
-            if cls not in got[:1]:
+            if cls not in got:
                 print(f"HARNESS-ERROR property={pid} violation {cls} of case {idx} did not reproduce (got {got})")
                 return 2
             budget = (3000, 30.0) if tier == "quick" else (6000, 60.0)
